@@ -148,6 +148,10 @@ let dispatch name =
   | "solve" -> let a = rlist rqlist in let b = rlist rqlist in pres (plist pqlist) (Exec.q_solve a b)
   | "obj_split" -> let tol = rq () in let o = robj () in let d = rnat () in let ks = rqlist () in
     pres (plist pobj) (Exec.q_obj_split tol o d ks)
+  | "obj_make_periodic" -> let o = robj () in let c = rint () in let d = rnat () in
+    pres pobj (Exec.q_obj_make_periodic o (Z.of_int c) d)
+  | "obj_lower_periodic" -> let o = robj () in let t = rnat () in let d = rnat () in
+    pres pobj (Exec.q_obj_lower_periodic o t d)
   | _ -> out ("UNKNOWN " ^ name)
 
 let () =
